@@ -1,0 +1,46 @@
+//go:build verif
+
+// Contracts for package handlers, read by the verifier in /verif (tqv). Comment-only:
+// building with or without the "verif" tag yields the same program.
+// Every Handle implementation inherits the contract of tq.Handler.Handle
+// (/verif/spec/net.spec): exactly one Reply/ReplyWithContext per call (C07).
+package handlers
+
+//@ func (s *Start) Handle(response tq.Response, request tq.Request)
+//@   implements tq.Handler.Handle
+//@   requires s != nil && s.loggerProvider != nil && s.configProvider != nil
+//@   requires isConst(tq.HeaderType, request.Header.Type)
+
+//@ func (a *AuthenticateStart) Handle(response tq.Response, request tq.Request)
+//@   implements tq.Handler.Handle
+//@   requires a != nil && a.loggerProvider != nil && a.configProvider != nil && a.recorderWriter != nil
+
+//@ func (a *AuthenticateASCII) Handle(response tq.Response, request tq.Request)
+//@   implements tq.Handler.Handle
+//@   requires a != nil && a.loggerProvider != nil && a.configProvider != nil && a.recorderWriter != nil
+//@   modifies a.username
+
+//@ func (a *AuthenticateASCII) getUsername(response tq.Response, request tq.Request)
+//@   implements tq.Handler.Handle
+//@   requires a != nil && a.loggerProvider != nil && a.configProvider != nil && a.recorderWriter != nil
+//@   modifies a.username
+
+//@ func (a *AuthenticateASCII) getPassword(response tq.Response, request tq.Request)
+//@   implements tq.Handler.Handle
+//@   requires a != nil && a.loggerProvider != nil && a.configProvider != nil && a.recorderWriter != nil
+
+//@ func (a *AuthenticatePAP) Handle(response tq.Response, request tq.Request)
+//@   implements tq.Handler.Handle
+//@   requires a != nil && a.loggerProvider != nil && a.configProvider != nil && a.recorderWriter != nil
+
+//@ func (a *AuthorizeRequest) Handle(response tq.Response, request tq.Request)
+//@   implements tq.Handler.Handle
+//@   requires a != nil && a.loggerProvider != nil && a.configProvider != nil && a.recorderWriter != nil
+
+//@ func (a *AccountingRequest) Handle(response tq.Response, request tq.Request)
+//@   implements tq.Handler.Handle
+//@   requires a != nil && a.loggerProvider != nil && a.configProvider != nil && a.recorderWriter != nil
+
+//@ func (l *ResponseLogger) Handle(response tq.Response, request tq.Request)
+//@   implements tq.Handler.Handle
+//@   requires l != nil && l.next != nil
